@@ -26,7 +26,13 @@ ASSUMPTIONS = ["the order of rows BETWEEN groups is not constrained by the prope
 @st.composite
 def case_strategy(draw, variant):
     n = draw(st.sampled_from([0, 1, 2, 3, 4, 5, 6, 8, 10, 12, 16, 20, 30, 40]))
-    keys = draw(S.keys(n, nkeys=(1, 2), max_labels=4))
+    layout = draw(st.sampled_from(["contiguous", "contiguous", "contiguous", "chunkwise"]))
+    if layout == "chunkwise":
+        # chunk-wise factorized keys (threshold scaled down): a group may be absent from the first / last chunk
+        n = max(n, 4)
+        keys = [draw(S.key_column(n, types=("int", "float", "dt"), max_labels=4, shape=draw(st.sampled_from(["random", "blocks", "sorted_prefix"]))))]
+    else:
+        keys = draw(S.keys(n, nkeys=(1, 2), max_labels=4))
     how = draw(st.sampled_from(["head", "tail", "nth", "nth"]))
     narg = draw(st.integers(0, 8)) if how != "nth" else draw(st.integers(-8, 8))
     ncols = draw(st.sampled_from([1, 1, 2, 3]))
@@ -34,7 +40,8 @@ def case_strategy(draw, variant):
     return {"n": n, "keys": keys, "how": how, "narg": narg, "extra": extra, "sort": draw(st.sampled_from([True, True, False])),
             "vals_as": draw(st.sampled_from(["np", "series"])) if ncols == 1 else draw(st.sampled_from(["dict", "df", "list"])),
             "index": draw(st.sampled_from(["default", "shuffled", "dup", "str", "range5"])),
-            "prior": draw(st.sampled_from(["none", "none", "groups", "apply", "size"]))}
+            "prior": draw(st.sampled_from(["none", "none", "groups", "apply", "size"])), "layout": layout,
+            "threshold": draw(st.integers(1, max(n, 1))), "key_chunks": draw(st.integers(1, 5))}
 
 
 def expected_positions(how, narg, groups):
@@ -66,15 +73,16 @@ def run(case, keys_obj, n, labels, ctx_classes=None):
         values = pd.DataFrame({"id": ids, **{f"x{i}": e for i, e in enumerate(extra)}}, index=index)
     else:
         values = [pd.Series(ids, index=index, name="id")] + [pd.Series(e, index=index, name=f"x{i}") for i, e in enumerate(extra)]
-    gb = GroupBy(keys_obj, sort=case["sort"])
-    prior = case.get("prior", "none")
-    if prior == "groups":
-        gb.groups  # fills the cached group-sorted indexer: the selection must not depend on it
-    elif prior == "apply":
-        gb.apply(np.arange(n, dtype=float), np.max)
-    elif prior == "size":
-        gb.size()
-    res = getattr(gb, how)(values, n=narg, keep_input_index=True)
+    with (gbops.Shims(threshold=case["threshold"], key_chunks=case["key_chunks"]) if case.get("layout") == "chunkwise" else gbops.Shims()):
+        gb = GroupBy(keys_obj, sort=case["sort"])
+        prior = case.get("prior", "none")
+        if prior == "groups":
+            gb.groups  # fills the cached group-sorted indexer: the selection must not depend on it
+        elif prior == "apply":
+            gb.apply(np.arange(n, dtype=float), np.max)
+        elif prior == "size":
+            gb.size()
+        res = getattr(gb, how)(values, n=narg, keep_input_index=True)
     return res, index, ids, extra
 
 
@@ -138,7 +146,7 @@ def check(case, ctx):
     interleaved = len(groups) >= 2 and any(labels[i] is not None and labels[i + 1] is not None and labels[i] != labels[i + 1] for i in range(n - 1))
     nt = interleaved and any(s > a for s in sizes) and any(s <= a for s in sizes)
     ctx.seen("select", case, nt, [f"how:{case['how']}", f"index:{case['index']}", f"vals_as:{case['vals_as']}", f"sort:{case['sort']}",
-                                  f"nullkeys:{any(l is None for l in labels)}", f"neg:{case['narg'] < 0}", f"prior:{case.get('prior')}"])
+                                  f"nullkeys:{any(l is None for l in labels)}", f"neg:{case['narg'] < 0}", f"prior:{case.get('prior')}", f"layout:{case.get('layout', 'contiguous')}"])
     if n == 0:
         return  # values of length 0 carry no rows to select; construction on empty input is not this property
     res, index, ids, extra = run(case, karg, n, labels)
